@@ -59,6 +59,10 @@ CLAIMED['C11'] = dict(
    text='Machine-checked theorems on a class-table model of Inherit._patch over a C3 linearisation: a method marked inherit enforces its own contracts and, for every class after the defining class in its MRO, every contract of the method that class resolves the name to (transitively through inherit-marked ancestors); methods not marked keep exactly their own. The model is hand-written with pinned source; on random hierarchies (single, multiple, diamond; inherit on methods; own contracts below inherit) the registry the real get_contracts reports equals the model\'s (order and multiplicity included) and CPython\'s MRO equals the C3 model; an independent monitor checks enforcement by calls on the first and on later calls and that the body sees the instance as self.',
    design_ref='DESIGN.md 4.11', note=GENERIC_NOTE + ' Inherit._patch and type.mro() are modelled by hand (pinned source + correspondence with the real class machinery).',
    technique='Coq proof over a hand-written class-table model (source-pinned) + differential correspondence + monitor')
+CLAIMED['C05'] = dict(
+   text='Machine-checked theorems on a state-machine model of InvariantedClass over attribute dictionaries, for every class, invariant stack, instance state and operation: an assignment or instance-method call that completes leaves every invariant true; a method is not entered when an invariant is already false; a violating assignment is not rolled back; static methods / properties / reads are untouched; nothing is validated while contracts are disabled; and a refutation of the `_` form on class-level attributes (known finding). The model is hand-written with pinned source; real deal.inv classes (stacked invariants in both forms, subclasses) are driven through random histories and compared step by step with the model; an independent monitor re-evaluates the invariants on vars(obj) after every step.',
+   design_ref='DESIGN.md 4.5', note=GENERIC_NOTE + ' InvariantedClass is modelled by hand (pinned source + correspondence); invariants are drawn from a small predicate grammar over integer attributes.',
+   technique='Coq proof over a hand-written state-machine model (source-pinned) + differential correspondence + monitor')
 UNCLAIMED_REASON = 'not claimed yet: the Coq model and check for this property are still under construction in this round (no technique switch intended)'
 checks, na = [], []
 for p in props:
